@@ -38,6 +38,8 @@ type permOp struct {
 	During *permOp `json:"during,omitempty"` // execduring: performed by a helper while the first started command is running
 	// how the executable is named in the call (the harness process has chdir'ed into its work directory):
 	// "" absolute | "dir" c<n>/f<p> | "dot" ./c<n>/f<p> | "dotdot" c<n>/../c<n>/f<p> | "bare" c<n>_f<p> (p lives in the cwd)
+	// | "sym1" <case>/app/current/../bin/f<p> | "sym2" <case>/app/./current/.././bin/f<p> | "sym3" <case>/app//current/..//bin/f<p>
+	// | "symrel" c<n>/app/current/../bin/f<p>   (p lives "deep"; `..` directly after a symlinked directory)
 	Form string `json:"form,omitempty"`
 	// exec: plant a decoy (owner 4242, mode 0777, id 9000+p) where a wrong resolution of the relative path would
 	// look: c<n>/c<n>/f<p> (relative to the directory of the executable instead of the working directory)
@@ -46,8 +48,13 @@ type permOp struct {
 	InPath int `json:"inpath,omitempty"`
 	// create / symlink: where the name lives: "" the case directory | "cwd" the working directory (c<n>_f<p>) |
 	// "path" the harness's private $PATH directory, under the bare name of id As (c<n>_f<As>)
+	// "deep": <case>/user/releases/bin/f<p> - what <case>/app/current/../bin/f<p> leads to when the kernel resolves
+	// it, `current` being a symlink to the directory <case>/user/releases/v1
 	Where string `json:"where,omitempty"`
 	As    int    `json:"as,omitempty"`
+	// exec / validate with a form "sym*" and Decoy: the decoy stands at the LEXICALLY cleaned location
+	// <case>/app/bin/f<p>; DecoyRoot makes it root-controlled (root:root 0755) instead of hostile
+	DecoyRoot bool `json:"decoyroot,omitempty"`
 }
 type permIn struct {
 	Failing []int    `json:"failing,omitempty"` // ids whose script exits 1 (after waiting for the helper, when one is armed)
@@ -379,6 +386,17 @@ func runPerm(workDir string, n int, in permIn) ([]permObs, string) {
 				loc[op.P] = filepath.Join(workDir, "c"+itoa(n)+"_f"+itoa(op.P))
 			case "path":
 				loc[op.P] = filepath.Join(workDir, "pathdir", "c"+itoa(n)+"_f"+itoa(op.As))
+			case "deep":
+				loc[op.P] = filepath.Join(dir, "user", "releases", "bin", "f"+itoa(op.P))
+				for _, d := range []string{"app/bin", "user/releases/v1", "user/releases/bin"} {
+					if err := os.MkdirAll(filepath.Join(dir, d), 0o755); err != nil {
+						panic(err)
+					}
+				}
+				os.Remove(filepath.Join(dir, "app", "current"))
+				if err := os.Symlink(filepath.Join(dir, "user", "releases", "v1"), filepath.Join(dir, "app", "current")); err != nil {
+					panic(err)
+				}
 			}
 		}
 	}
@@ -405,6 +423,14 @@ func runPerm(workDir string, n int, in permIn) ([]permObs, string) {
 			return rel + "/../" + rel + "/f" + itoa(op.P)
 		case "bare":
 			return "c" + itoa(n) + "_f" + itoa(op.P)
+		case "sym1":
+			return dir + "/app/current/../bin/f" + itoa(op.P)
+		case "sym2":
+			return dir + "/app/./current/.././bin/f" + itoa(op.P)
+		case "sym3":
+			return dir + "/app//current/..//bin/f" + itoa(op.P)
+		case "symrel":
+			return rel + "/app/current/../bin/f" + itoa(op.P)
 		}
 		return pathOf(op.P)
 	}
@@ -480,6 +506,27 @@ func runPerm(workDir string, n int, in permIn) ([]permObs, string) {
 		}
 		panic("perm driver: not a file-system operation: " + op.K)
 	}
+	// a file where a WRONG resolution of the name would look (never part of the model: it must not be checked
+	// instead of the real file and must never run)
+	plantDecoy := func(op permOp, content string) {
+		dd := filepath.Join(dir, rel)
+		if strings.HasPrefix(op.Form, "sym") {
+			dd = filepath.Join(dir, "app", "bin")
+		}
+		must(os.MkdirAll(dd, 0o755))
+		dp := filepath.Join(dd, "f"+itoa(op.P))
+		permFsMu.Lock()
+		werr := os.WriteFile(dp, []byte(content), 0o600)
+		permFsMu.Unlock()
+		must(werr)
+		if op.DecoyRoot {
+			must(os.Chown(dp, 0, 0))
+			must(syscall.Chmod(dp, 0o755))
+		} else {
+			must(os.Chown(dp, 4242, 4242))
+			must(syscall.Chmod(dp, 0o777))
+		}
+	}
 	var obs []permObs
 	var coqOps []string
 	for _, op := range in.Ops {
@@ -488,15 +535,7 @@ func runPerm(workDir string, n int, in permIn) ([]permObs, string) {
 		case "exec", "execduring":
 			os.Remove(marker)
 			if op.Decoy {
-				dd := filepath.Join(dir, rel)
-				must(os.MkdirAll(dd, 0o755))
-				dp := filepath.Join(dd, "f"+itoa(op.P))
-				permFsMu.Lock()
-				werr := os.WriteFile(dp, []byte(script(9000+op.P)), 0o600)
-				permFsMu.Unlock()
-				must(werr)
-				must(os.Chown(dp, 4242, 4242))
-				must(syscall.Chmod(dp, 0o777))
+				plantDecoy(op, script(9000+op.P))
 			}
 			statPath := p
 			if op.Form == "bare" && op.InPath != 0 {
@@ -561,7 +600,11 @@ func runPerm(workDir string, n int, in permIn) ([]permObs, string) {
 				coqOps = append(coqOps, cRec("OpExec", cZ(op.Api), cZ(op.P)))
 			}
 		case "validate":
+			if op.Decoy {
+				plantDecoy(op, permCfgVariants[op.Cfg].yaml)
+			}
 			o := permObs{Stat: permResolveStat(p), Starts: [][4]int{}}
+			p = nameOf(op)
 			var err error
 			permCfgMu.Lock()
 			cfg := permLoadVariant(workDir, op.Cfg)
@@ -816,6 +859,35 @@ func init() {
 					permOp{K: "create", P: 3, U: 0, G: 0, M: 0o755, Where: "path", As: 2}, permOp{K: "exec", P: 2, Api: api, Form: "bare", InPath: 3})
 				add([]string{"relative", "form=bare", "api=" + itoa(api), "path=only-hostile"},
 					permOp{K: "create", P: 3, U: 0, G: 4242, M: 0o775, Where: "path", As: 2}, permOp{K: "exec", P: 2, Api: api, Form: "bare", InPath: 3})
+			}
+			// (d4) `..` (and `.`, `//`) directly after a SYMLINKED directory component: the kernel, os/exec and viper follow
+			// the link first (<case>/app/current/../bin/f -> <case>/user/releases/bin/f), a lexical clean-up would
+			// yield <case>/app/bin/f. The real file lives at the kernel-resolved place, a decoy with the opposite
+			// attributes at the lexically cleaned one
+			for _, form := range []string{"sym1", "sym2", "sym3", "symrel"} {
+				type sc struct {
+					u, g, m     int
+					decoy, root bool
+					tag         string
+				}
+				for _, c := range []sc{
+					{4242, 4242, 0o777, true, true, "real=hostile,decoy=root"},
+					{0, 4242, 0o775, true, true, "real=groupwrite,decoy=root"},
+					{0, 0, 0o755, true, false, "real=root,decoy=hostile"},
+					{0, 0, 0o755, false, false, "real=root,no-decoy"},
+					{4242, 0, 0o755, false, false, "real=hostile,no-decoy"},
+				} {
+					for api := 0; api <= 5; api++ {
+						add([]string{"symdotdot", "form=" + form, "api=" + itoa(api), c.tag},
+							permOp{K: "create", P: 1, U: c.u, G: c.g, M: c.m, Where: "deep"},
+							permOp{K: "exec", P: 1, Api: api, Form: form, Decoy: c.decoy, DecoyRoot: c.root})
+					}
+					for _, v := range []string{"cmdsensor", "cmdfan", "cmdsensor_unused", "nocmd"} {
+						add([]string{"symdotdot", "form=" + form, "cfg=" + v, c.tag},
+							permOp{K: "create", P: 1, U: c.u, G: c.g, M: c.m &^ 0o111, Where: "deep", Cfg: v},
+							permOp{K: "validate", P: 1, Cfg: v, Form: form, Decoy: c.decoy, DecoyRoot: c.root})
+					}
+				}
 			}
 			// (e) ownership / mode / link target changed between consecutive calls
 			nFlip := ctx.Param("flips", 400)
